@@ -340,11 +340,14 @@ package hrpc
 //@   at loopend 1 assert[C05] forall(j, 0 <= j && j < athead(1, counter), cols[j] == athead(1, cols[j]) && sameslice(cols[j].Family, athead(1, cols[j].Family)) && allocated(athead(1, cols[j].Family)))
 //@   at loopend 1 assert[C05] forall(j, k, 0 <= j && j < athead(1, counter) && 0 <= k && k < len(cols[j].Family), cols[j].Family[k] == athead(1, cols[j].Family[k]))
 //@   at loopend 1 assert[C05] bytesAre(cols[athead(1, counter)].Family, family) && ghostat("colfam", athead(1, counter)) == family
+//@   at loopend 1 assert[C05] forall(j, 0 <= j && j < athead(1, counter), sameslice(cols[j].Qualifier, athead(1, cols[j].Qualifier)) && allocated(athead(1, cols[j].Qualifier)) && athead(1, cols[j].Qualifier) != nil)
+//@   at loopend 1 assert[C05] forall(j, q, 0 <= j && j < athead(1, counter) && 0 <= q && q < len(cols[j].Qualifier), sameslice(cols[j].Qualifier[q], athead(1, cols[j].Qualifier[q])))
 //@   loop 1 invariant[C05] forall(j, 0 <= j && j < counter, len(cols[j].Qualifier) == len(families[ghostat("colfam", j)]))
 //@   loop 1 invariant[C05] forall(j1, j2, 0 <= j1 && j1 < j2 && j2 < counter, ghostat("colfam", j1) != ghostat("colfam", j2))
 //@   loop 2 invariant[C05] len(bytequals) == len(qualifiers) && forall(q, 0 <= q && q < i, bytequals[q] != nil && allocated(bytequals[q]) && bytesAre(bytequals[q], qualifiers[q]))
 //@   loop 1 invariant[C05] forall(j, 0 <= j && j < counter, cols[j].Qualifier != nil)
-//@   loop 1 invariant[C05] forall(j, q, 0 <= j && j < counter && 0 <= q && q < len(cols[j].Qualifier), cols[j].Qualifier[q] != nil && allocated(cols[j].Qualifier[q]))
+//@   loop 1 invariant[C05] forall(j, q, 0 <= j && j < counter && 0 <= q && q < len(cols[j].Qualifier), cols[j].Qualifier[q] != nil)
+//@   loop 1 invariant[C05] forall(j, q, 0 <= j && j < counter && 0 <= q && q < len(cols[j].Qualifier), allocated(cols[j].Qualifier[q]))
 //@   loop 1 invariant[C05] forall(j, q, 0 <= j && j < counter && 0 <= q && q < len(cols[j].Qualifier), bytesAre(cols[j].Qualifier[q], families[ghostat("colfam", j)][q]))
 //@   loop 1 invariant[C05] forall(j, 0 <= j && j < counter, allocated(cols[j]))
 //@   loop 1 invariant[C05] forall(j, 0 <= j && j < counter, cols[j].Family != nil && allocated(cols[j].Family) && allocated(cols[j].Qualifier))
